@@ -7,6 +7,7 @@ import (
 	"net"
 	"net/http"
 	"sort"
+	"testing/synctest"
 	"time"
 
 	"github.com/tsenart/vegeta/v12/internal/simrt"
@@ -79,7 +80,8 @@ func (s *attackSim) run(keep bool) {
 			case 9:
 				o = vegeta.ConnectTo(map[string][]string{"sim0.test:80": {"10.0.0.1:80", "10.0.0.2:80"}})
 			case 10:
-				o = vegeta.DNSCaching([]time.Duration{0, -1}[s.tape.Choose(2)])
+				// (a positive ttl starts a refresh goroutine in NewAttacker, which lives until the attacker is stopped)
+				o = vegeta.DNSCaching([]time.Duration{0, -1, 5 * time.Second, time.Hour}[s.tape.Choose(4)])
 			}
 			neutral += fmt.Sprintf(" %d", c)
 			opts = append(opts, o)
@@ -91,6 +93,7 @@ func (s *attackSim) run(keep bool) {
 		opts[i], opts[j] = opts[j], opts[i]
 	}
 	atk := vegeta.NewAttacker(opts...)
+	synctest.Wait() // a goroutine started by an option reaches its first blocking point before the world goes live
 	// an Attacker may be built well before it is used: the attack's clock starts with Attack, not with NewAttacker
 	if gap := []time.Duration{0, 0, time.Millisecond, 300 * time.Millisecond, time.Hour}[s.tape.Choose(5)]; gap > 0 {
 		w.Advance(gap)
@@ -785,6 +788,12 @@ func (s *attackSim) perform(a action) {
 			v := int64(wait)
 			if stop {
 				v = paceStop
+				if s.tape.Prob(1, 2) {
+					// a pacer may say stop and name a wait in the same answer (a wrapper that caps another pacer at n hits
+					// does): stop is what counts
+					v = paceStopWithWait
+					s.stats["fault.pacer-stop-with-a-wait"]++
+				}
 			}
 			w.Log.Addf("%d rel-pace wait=%d stop=%v", w.Step, wait, stop)
 			w.Release(ar, v, nil)
